@@ -229,6 +229,10 @@ type c18RecSink struct {
 	failAt int
 	fired  bool
 	onCall func(call int) // runs at the start of every delivery (a write that lands while the job runs)
+	// midFired: onCall made its write during the current phase; afterMid: index into got from which
+	// on deliveries were read after that write (-1 = not yet known)
+	midFired bool
+	afterMid int
 }
 
 func (r *c18RecSink) GetConfig() map[string]interface{} {
@@ -240,6 +244,12 @@ func (r *c18RecSink) processEntities(runner *Runner, entities []*server.Entity) 
 	if r.onCall != nil {
 		r.onCall(r.calls)
 	}
+	// afterMid: what is delivered from the next call on was read after the write onCall made
+	defer func() {
+		if r.midFired && r.afterMid < 0 {
+			r.afterMid = len(r.got)
+		}
+	}()
 	if r.failAt > 0 && r.calls == r.failAt {
 		r.fired = true
 		return fmt.Errorf("verif: injected sink failure at delivery %d", r.failAt)
@@ -452,6 +462,40 @@ func (c *c18M) expected() (map[string]string, bool) {
 	return exp, nt
 }
 
+// expectedNow: main entities connected, in the graph as it stands now, to dependency entities
+// changed since c.mark (no previous-phase links, no main changes): a subset of expected().
+func (c *c18M) expectedNow() (map[string]string, bool) {
+	cur := c.graph()
+	exp := map[string]string{}
+	for _, d := range c.cfg.deps() {
+		changed := map[string]bool{}
+		for _, e := range c.m.DS[d.DS].Feed[c.mark[d.DS]:] {
+			changed[e.ID] = true
+		}
+		for _, x := range kit.SortedKeys(changed) {
+			s := c18Step(cur, map[string]bool{x: true}, d.DS, d.Joins[0])
+			prevDS := d.Joins[0].DS
+			for _, j := range d.Joins[1:] {
+				s = c18Step(cur, s, prevDS, j)
+				prevDS = j.DS
+			}
+			for _, id := range kit.SortedKeys(s) {
+				if me := cur["main"][id]; me != nil && !me.Deleted {
+					if _, ok := exp[id]; !ok {
+						exp[id] = fmt.Sprintf("connected to %s entity %s, which changed during the run", d.DS, x)
+					}
+				}
+			}
+		}
+	}
+	return exp, false
+}
+
+func c18JSONOp(op c18Op) string {
+	b, _ := json.Marshal(op)
+	return string(b)
+}
+
 type c18Token struct {
 	MainToken        string
 	DependencyTokens map[string]*struct{ Token string }
@@ -521,11 +565,18 @@ func (c *c18M) sync(failAt int, mid ...c18Op) {
 	c.rec.got, c.rec.calls, c.rec.failAt, c.rec.fired = nil, 0, failAt, false
 	midDone := false
 	c.rec.onCall = nil
+	c.rec.midFired, c.rec.afterMid = false, -1
+	var midMarks map[string]int
 	if len(mid) > 0 {
 		// a write to a dependency / join dataset that commits while a run is in progress
 		c.rec.onCall = func(call int) {
 			if !midDone {
 				midDone = true
+				midMarks = map[string]int{}
+				for _, ds := range c.cfg.path() {
+					midMarks[ds] = len(c.m.DS[ds].Feed)
+				}
+				c.rec.midFired = true
 				w := mid[0]
 				w.Mid = true
 				c.write(w)
@@ -610,6 +661,29 @@ func (c *c18M) sync(failAt int, mid ...c18Op) {
 	}
 	if len(missing) > 0 {
 		c.fail("after %d runs the job has caught up (token unchanged) but did not emit: %s", op.Runs, strings.Join(missing, "; "))
+	}
+	if midDone && c.rec.afterMid >= 0 {
+		// the change made while the job was running: every main entity connected to an entity it
+		// changed (graph as it stands now) is emitted AFTER that change - an emission from before it
+		// carries the old state of the dependency
+		saved := c.mark
+		c.mark = midMarks
+		expMid, _ := c.expectedNow()
+		c.mark = saved
+		after := map[string]bool{}
+		for _, e := range c.rec.got[c.rec.afterMid:] {
+			after[e.ID] = true
+		}
+		var late []string
+		for _, id := range kit.SortedKeys(expMid) {
+			if !after[id] {
+				late = append(late, id+" ("+expMid[id]+")")
+			}
+		}
+		if len(late) > 0 {
+			c.fail("a dependency changed while the job was running (write %s); after %d runs the job has caught up but did not emit, after that change: %s", c18JSONOp(mid[0]), op.Runs, strings.Join(late, "; "))
+		}
+		kit.S().AddExtra("emissions after a write made during a run checked", len(expMid))
 	}
 	c.phases++
 	if nt && c.phases > 1 {
